@@ -144,8 +144,66 @@ class CMixin:
         return v
 
     def ex_COmpFor(self, node, st):
-        # sequential semantics; the data-race freedom obligations are generated by omp.py (C07)
-        self.exec_stmt(node.loop, st)
+        """Sequential semantics for the functional contract; access logging for the data-race
+        freedom obligations of dvc/omp.py (C07)."""
+        from .exec_stmt import Modified
+        if self.mode != 'vc':
+            self.exec_stmt(node.loop, st)
+            return
+        loop = node.loop
+        m = Modified()
+        for s in loop.body:
+            m.visit(s)
+        declared = set()
+        for sub_ in ast.walk(ast.Module(body=loop.body, type_ignores=[])):
+            if isinstance(sub_, cnodes.CDecl):
+                declared.add(sub_.name)
+        loopvars = set()
+        for s in loop.step + loop.init:
+            mm = Modified()
+            mm.visit(s)
+            loopvars |= mm.names
+        priv = set(node.privates) | declared | loopvars
+        for nme in sorted(m.names):
+            self.oblige('omp-private', nme in priv, st, node,
+                        'scalar %s assigned in the parallel loop body is private or declared inside' % nme,
+                        detail='%s' % nme)
+            if nme not in priv:
+                self.last_false = None
+        for (nme, attr) in sorted(m.attrs):
+            self.oblige('omp-shared-write', False, st, node, 'shared struct field %s.%s assigned inside the parallel loop' % (nme, attr),
+                        detail='%s.%s' % (nme, attr))
+        for nme in sorted(m.derefs):
+            self.oblige('omp-shared-write', False, st, node, 'shared cell *%s assigned inside the parallel loop' % nme, detail='*' + nme)
+        self.omp_ctx = dict(loop=loop, mark=None, loopvar=None, log=[], heap0=None,
+                            varname=sorted(loopvars)[0] if loopvars else None)
+        try:
+            self.exec_stmt(loop, st)
+        finally:
+            # paths that end inside the body are flushed by Exec.explore; a path that leaves the
+            # loop normally stops logging here
+            self.omp_flush(st)
+            self.omp_ctx = None
+
+    def omp_flush(self, st):
+        ctx = getattr(self, 'omp_ctx', None)
+        if not ctx or ctx['mark'] is None or not ctx['log']:
+            return
+        if not hasattr(self, 'omp_paths'):
+            self.omp_paths = []
+        self.omp_paths.append(dict(pc=list(st.pc), mark=ctx['mark'], loopvar=ctx['loopvar'], log=list(ctx['log'])))
+        ctx['log'] = []
+
+    def omp_log(self, oid, pos, kind, st, node):
+        ctx = getattr(self, 'omp_ctx', None)
+        if not ctx or ctx['mark'] is None or self.spec_mode:
+            return
+        if oid not in ctx['heap0']:
+            return          # allocated inside the iteration
+        if isinstance(st.heap.get(oid), ArrObj) and st.heap[oid].pykind == 'cbox':
+            return
+        p = pos if is_z3(pos) or pos is None else z3.IntVal(pos)
+        ctx['log'].append((oid, p, kind, len(st.pc), getattr(node, 'lineno', 0)))
 
     # ------------------------------------------------------------------ expressions
     def ev_CCast(self, node, st):
@@ -244,6 +302,7 @@ class CMixin:
         if isinstance(obj, RecObj):
             return Ref(p.oid)
         pos = self.binop_nooverflow(p.off, idx)
+        self.omp_log(p.oid, pos, 'r', st, node)
         if getattr(obj, 'freed', False):
             self.oblige('use-after-free', False, st, node, 'read of freed block')
         if obj.pykind == 'cbox':
@@ -264,6 +323,10 @@ class CMixin:
     def binop_nooverflow(self, a, b):
         if is_cint(a) and is_cint(b):
             return a + b
+        if is_cint(a) and a == 0:
+            return b
+        if is_cint(b) and b == 0:
+            return a
         return zint(a) + zint(b)
 
     def ptr_write(self, p, idx, v, node, st):
@@ -271,11 +334,14 @@ class CMixin:
         if isinstance(obj, RecObj):
             raise Unsupported('struct assignment through pointer')
         pos = self.binop_nooverflow(p.off, idx)
+        self.omp_log(p.oid, pos, 'w', st, node)
         if getattr(obj, 'freed', False):
             self.oblige('use-after-free', False, st, node, 'write to freed block')
         self.frame_write(obj, None, st, node)
         if obj.pykind == 'cbox':
             o2 = obj.clone()
+            if v is None:
+                v = Ptr(None, 0)
             o2.items[0] = v
             st.heap[p.oid] = o2
             return
